@@ -18,9 +18,12 @@ OnClass(e) ==
              \/ (want = "repaired" /\ ~(e.ok /\ e.all_valid /\ e.equals_reference))
              \/ (want = "error" /\ e.ok)
   IN FlagAll(IF bad THEN {<<l, "class">>} ELSE {})
+\* valid records (C17 transparency): a message the standard codec accepts decodes to exactly what the standard codec yields
+OnValid(e) == FlagAll(IF e.ok /\ e.std_ok /\ e.same_as_std THEN {} ELSE {<<l, "nottransparent">>})
 ONext == /\ l <= Len(Trace) /\ l' = l + 1
          /\ LET e == Trace[l] IN
-            IF e.ev = "Utf8" /\ e.built THEN (IF e.kind = "path" THEN OnPath(e) ELSE OnClass(e)) ELSE TRUE
+            IF e.ev = "Utf8" /\ e.built THEN (IF e.kind = "path" THEN OnPath(e) ELSE IF e.kind = "valid" THEN OnValid(e) ELSE OnClass(e))
+                                           ELSE TRUE
 OSpec == l = 1 /\ [][ONext]_l
 Report == PrintT(<<"OBS_VIOLATIONS", TLCGet(1)>>) /\ PrintT(<<"OBS_TRACE_LEN", Len(Trace)>>)
 =============================================================================
